@@ -114,6 +114,65 @@ func genSsim(profile string, seed uint64, thorough bool) *Scenario {
 			cl.Ops = append(cl.Ops, op)
 		}
 		scn.SClients = []SClient{cl}
+	case "recover":
+		// concurrent writers over adversarial keys, usually killed or failed at some disk call; then the
+		// directory is reopened and a single client reads everything back and lists
+		scn.Backend = pick(g, "fs", "fs", "fsenc")
+		if scn.Backend == "fsenc" {
+			scn.EncVia = pick(g, "option", "dsn", "env")
+		}
+		scn.Keys = hexAll(g.keyTable(2+g.IntN(4), false))
+		scn.WChunk = pick(g, 0, 7, 64, 64)
+		nc := 1 + g.IntN(3)
+		// disjoint: every client is the only one that touches "its" key, and nothing fails: each key's
+		// operations then form one sequence although the clients run concurrently
+		scn.Disjoint = g.chance(30)
+		if scn.Disjoint {
+			nc = 2 + g.IntN(3)
+			for len(scn.Keys) < nc {
+				scn.Keys = append(scn.Keys, hexAll(g.keyTable(1, false))...)
+			}
+			seen := map[string]bool{}
+			for _, k := range scn.Keys[:nc] {
+				if seen[k] {
+					scn.Disjoint = false
+				}
+				seen[k] = true
+			}
+		}
+		for c := 0; c < nc; c++ {
+			var cl SClient
+			n := 2 + g.IntN(6)
+			for i := 0; i < n; i++ {
+				op := SOp{Key: g.IntN(len(scn.Keys)), ValLen: pick(g, 1, 17, 100, 300, 1000), Class: g.IntN(2)}
+				op.Kind = []string{"set", "get", "delete", "keys"}[g.wpick(60, 15, 15, 10)]
+				op.Prefix = pick(g, 0, 0, 1, 36, 1000)
+				if scn.Disjoint {
+					op.Key = c
+					op.Kind = []string{"set", "get", "delete", "set-mutate", "get-mutate"}[g.wpick(45, 35, 10, 5, 5)]
+				}
+				cl.Ops = append(cl.Ops, op)
+			}
+			scn.SClients = append(scn.SClients, cl)
+		}
+		if !scn.Disjoint && g.chance(80) {
+			f := DiskFault{OpKind: pick(g, "write", "sync", "create", "close", "rename", "mkdir", "any", "any"), Nth: g.IntN(8), Errno: pick(g, "ENOSPC", "EIO", "CRASH", "CRASH", "CRASH")}
+			f.Arg, f.Permille = g.IntN(1001), true
+			scn.DiskFaults = append(scn.DiskFaults, f)
+		}
+		var p2 SClient
+		for k := range scn.Keys {
+			p2.Ops = append(p2.Ops, SOp{Kind: "get", Key: k})
+		}
+		p2.Ops = append(p2.Ops, SOp{Kind: "keys", Key: 0, Prefix: 0})
+		for i, n := 0, g.IntN(5); i < n; i++ {
+			op := SOp{Key: g.IntN(len(scn.Keys)), ValLen: pick(g, 1, 100, 1000), Class: g.IntN(2)}
+			op.Kind = []string{"set", "get", "delete", "keys", "reopen"}[g.wpick(35, 15, 20, 25, 5)]
+			op.Prefix = pick(g, 0, 0, 1, 36, 1000)
+			p2.Ops = append(p2.Ops, op)
+		}
+		p2.Ops = append(p2.Ops, SOp{Kind: "keys", Key: 0, Prefix: 0})
+		scn.Phase2 = []SClient{p2}
 	case "atomic", "crypt":
 		scn.Backend = pick(g, "fs", "fsenc")
 		if profile == "crypt" {
@@ -126,12 +185,20 @@ func genSsim(profile string, seed uint64, thorough bool) *Scenario {
 		scn.WChunk = pick(g, 0, 1, 7, 64, 64)
 		scn.RChunk = pick(g, 0, 0, 1, 13, 100)
 		nc := 2 + g.IntN(3)
+		// twins: concurrent clients write one and the same value (the ciphertexts must still differ)
+		twins, tlen, tclass := scn.Backend == "fsenc" && g.chance(35), pick(g, 1, 17, 100, 300), g.IntN(2)
+		if twins {
+			scn.Keys = hexAll(g.keyTable(2+g.IntN(3), true))
+		}
 		for c := 0; c < nc; c++ {
 			var cl SClient
 			n := 2 + g.IntN(5)
 			for i := 0; i < n; i++ {
 				op := SOp{Key: g.IntN(len(scn.Keys)), ValLen: pick(g, 1, 2, 17, 100, 300, 1000), Class: g.IntN(2)}
 				op.Kind = []string{"set", "get", "delete"}[g.wpick(45, 45, 10)]
+				if twins && g.chance(75) {
+					op.Kind, op.Twin, op.ValLen, op.Class = "set", 1, tlen, tclass
+				}
 				cl.Ops = append(cl.Ops, op)
 			}
 			scn.SClients = append(scn.SClients, cl)
@@ -152,6 +219,13 @@ func genSsim(profile string, seed uint64, thorough bool) *Scenario {
 		if g.chance(20) {
 			scn.Sched.StallPct = 5
 			scn.Sched.StallNs = []int64{int64(time.Millisecond), int64(time.Second)}
+		}
+		if profile == "atomic" && g.chance(25) {
+			// a disk slower than the backend's operation timeout: calls give up while their operation goes on
+			// (stall lengths cannot add up to a timeout exactly, so no select ever sees both cases ready)
+			scn.FsTimeoutNs = pick(g, int64(50*time.Millisecond), int64(300*time.Millisecond), int64(2500*time.Millisecond))
+			scn.Sched.StallPct = pick(g, 5, 15, 30)
+			scn.Sched.StallNs = []int64{int64(time.Millisecond), int64(time.Second), int64(time.Second)}
 		}
 	}
 	return scn
